@@ -54,7 +54,7 @@ ALIAS_TARGETS = {
 SET_VALUES = [
     ("m", "module"), ("m", "stubmodule"), ("n", "module"),
     ("m.C", "class"), ("m.C.f", "function"), ("m.f", "function"), ("m.f", "attribute"), ("m.v", "attribute"),
-] + [(p, "alias") for p in ALIAS_TARGETS]
+] + [(p, "alias") for p in ALIAS_TARGETS] + [("m.al", "alias-obj"), ("n.a4", "alias-obj")]
 DEL_PATHS = ["m", "n", "m.C", "m.C.f", "m.f", "m.v", "m.g", "m.al", "m.a2", "n.a3", "n.bad", "m.cy"]  # (n.a4 is never deleted: keeps the alphabet small)
 ALIAS_PATHS = [p for p in ALIAS_TARGETS if p != "m.f"] + ["m.f"]
 RETARGETS = [("m.al", "m.C"), ("m.a2", "m.f"), ("n.a3", "m.f"), ("n.bad", "m.v"), ("m.al", "m.a2")]
@@ -69,7 +69,7 @@ def _ops(tier):
             for kf in KEYFORMS:
                 if "." not in path and kf == "dotted":
                     continue  # identical to "name" for a top-level slot
-                if not forms_full and kind == "alias" and (api, kf) not in (("set_member", "name"), ("setitem", "dotted"), ("set_member", "tuple")):
+                if (not forms_full or kind == "alias-obj") and kind.startswith("alias") and (api, kf) not in (("set_member", "name"), ("setitem", "dotted"), ("set_member", "tuple")):
                     continue
                 ops.append(("set", path, kind, api, kf))
     for path in DEL_PATHS:
@@ -200,6 +200,18 @@ class World:
         name = path.rsplit(".", 1)[-1]
         if kind == "alias":
             return self._new("alias", name, ALIAS_TARGETS[path])
+        if kind == "alias-obj":
+            # an alias constructed over the target OBJECT (born resolved), as the visitor / wildcard expansion / inherited members do
+            tn = self.m_lookup(ALIAS_TARGETS[path])
+            if tn is None or tn.kind == "alias":
+                return None
+            label = self.next_label
+            self.next_label += 1
+            o = self.g.Alias(name, self.objs[tn.label])
+            mn = MNode(label, "alias", target_path=ALIAS_TARGETS[path])
+            self.m_target[label] = tn.label
+            self.objs[label] = o
+            return label, o, mn
         label, o, mn = self._new(kind, name)
         if kind == "stubmodule":
             # a stubs module arrives with two members of its own: f (also present in the runtime slot list) and g (stub-only)
@@ -315,7 +327,10 @@ class Step:
                 return "n/a", "n/a", False, viols
             if not is_coll and vkind in ("module", "stubmodule"):
                 return "n/a", "n/a", False, viols
-            label, val, mn = w.make_value(path, vkind)
+            made = w.make_value(path, vkind)
+            if made is None:
+                return "n/a", "n/a", False, viols  # alias-obj: the target object does not exist in this state
+            label, val, mn = made
             # model
             parts = path.split(".") if kf != "name" else [key]
             cont = mcont
@@ -356,6 +371,12 @@ class Step:
                         if was_target == old_label:
                             # I5: the alias pointed at the replaced object => follows the replacement
                             new = w.objs[new_label]
+                            if new.__class__.__name__ == "Alias" and new._target is None and alias._target is None and alias.target_path == at:
+                                # the replacement is an unresolved alias: following it by path, unresolved like it, is the
+                                # all-or-nothing form of "follows" (C06); dereferencing reaches the replacement
+                                w.m_target[al_label] = None
+                                w.loose.discard(al_label)
+                                continue
                             if alias._target is not new:
                                 viols.append((f"inv/I5-target/{api}/{kf}", f"alias {apath} pointed at replaced {at} but does not target the replacement", None))
                             elif alias.target_path != at:
